@@ -542,3 +542,147 @@ for _p in ("C10", "C11"):
                 self._seed_for_trial[trial_id] = seed
 """),
     ]
+
+VARIANTS["C01"] += [
+    B("result handed to the scheduler without being recorded as last seen", "syne_tune/tuner.py",
+      """                self.last_seen_result_per_trial[trial_id] = result
+                decision = self.scheduler.on_trial_result(trial=trial, result=result)""",
+      """                decision = self.scheduler.on_trial_result(trial=trial, result=result)"""),
+    B("last seen result recorded only when the trial goes on", "syne_tune/tuner.py",
+      """                self.last_seen_result_per_trial[trial_id] = result
+                decision = self.scheduler.on_trial_result(trial=trial, result=result)""",
+      """                decision = self.scheduler.on_trial_result(trial=trial, result=result)
+                if decision == SchedulerDecision.CONTINUE:
+                    self.last_seen_result_per_trial[trial_id] = result"""),
+    E("last seen result recorded through a local alias of the table", "syne_tune/tuner.py",
+      """                self.last_seen_result_per_trial[trial_id] = result
+                decision = self.scheduler.on_trial_result(trial=trial, result=result)""",
+      """                seen = self.last_seen_result_per_trial
+                seen[trial_id] = result
+                decision = self.scheduler.on_trial_result(trial=trial, result=result)"""),
+]
+
+_SIM = "syne_tune/backend/simulator_backend/simulator_backend.py"
+VARIANTS["C01"] += [
+    B("start event processed without the trial becoming busy", _SIM,
+      """        self._busy_trial_ids.add(trial_id)
+
+    def _process_complete_event""",
+      """        pass
+
+    def _process_complete_event"""),
+    B("stop event leaves the trial in the busy set", _SIM,
+      """        self._simulator_state.remove_events(trial_id)
+        if trial_id in self._busy_trial_ids:
+            self._busy_trial_ids.remove(trial_id)""",
+      """        self._simulator_state.remove_events(trial_id)"""),
+    B("completion frees the worker only for trials that never reported", _SIM,
+      """            trial_result.training_end_time = training_end_time
+        else:""",
+      """            trial_result.training_end_time = training_end_time
+            return
+        else:"""),
+    E("busy set: discard instead of test and remove", _SIM,
+      """        self._simulator_state.remove_events(trial_id)
+        if trial_id in self._busy_trial_ids:
+            self._busy_trial_ids.remove(trial_id)""",
+      """        self._simulator_state.remove_events(trial_id)
+        self._busy_trial_ids.discard(trial_id)"""),
+]
+
+_CP = "syne_tune/optimizer/schedulers/hyperband_cost_promotion.py"
+VARIANTS["C04"] += [
+    B("cost-aware scan: the threshold test is inverted", _CP,
+      "                if sum_costs > cost_threshold:\n                    break  # Nothing to promote",
+      "                if not sum_costs > cost_threshold:\n                    break  # Nothing to promote"),
+    B("cost-aware scan: a rung with one entry promotes it", _CP,
+      "        if len(rung) > 1:\n            cost_threshold",
+      "        if len(rung) > 0:\n            cost_threshold"),
+    E("cost-aware scan: threshold test written as continue-guard", _CP,
+      "                if sum_costs > cost_threshold:\n                    break  # Nothing to promote\n                if self._is_promotable_trial(entry, rung.level):\n                    result = (entry.trial_id, pos)\n                    break",
+      "                if sum_costs <= cost_threshold:\n                    if self._is_promotable_trial(entry, rung.level):\n                        result = (entry.trial_id, pos)\n                        break\n                else:\n                    break  # Nothing to promote"),
+]
+
+_HBB = "syne_tune/optimizer/schedulers/synchronous/hyperband_bracket.py"
+VARIANTS["C05"] += [
+    B("complete rung: hand-out position not reset", _HBB,
+      "            self.current_rung += 1\n            self._first_free_pos = 0\n",
+      "            self.current_rung += 1\n"),
+    B("complete rung: index advanced only if the bracket goes on", _HBB,
+      "            self.current_rung += 1\n            self._first_free_pos = 0\n            if not self.is_bracket_complete():\n                trials_not_promoted = self._promote_trials_at_rung_complete()",
+      "            self._first_free_pos = 0\n            if self.current_rung + 1 < self.num_rungs:\n                self.current_rung += 1\n                trials_not_promoted = self._promote_trials_at_rung_complete()"),
+    E("complete rung: reset before advance", _HBB,
+      "            self.current_rung += 1\n            self._first_free_pos = 0\n",
+      "            self._first_free_pos = 0\n            self.current_rung += 1\n"),
+]
+
+_SYH = "syne_tune/optimizer/schedulers/synchronous/hyperband.py"
+VARIANTS["C05"] += [
+    B("_suggest: promotion slot answered by a new trial (test inverted)", _SYH,
+      "        if slot_in_rung.trial_id is not None:\n            # Paused trial to be resumed",
+      "        if slot_in_rung.trial_id is None:\n            # Paused trial to be resumed"),
+    B("_suggest: resumed trial not registered as pending", _SYH,
+      "        if suggestion is not None:\n            assert trial_id not in self._trial_to_pending_slot, (",
+      "        if suggestion is not None and suggestion.spawn_new_trial_id:\n            assert trial_id not in self._trial_to_pending_slot, ("),
+    B("_suggest: new trial's id not written into the slot", _SYH,
+      "                # Assign trial id to job descriptor\n                slot_in_rung.trial_id = trial_id\n",
+      "                # Assign trial id to job descriptor\n"),
+    B("_suggest: resumed trial is the id passed in", _SYH,
+      "            # Paused trial to be resumed (``trial_id`` passed in is ignored)\n            trial_id = slot_in_rung.trial_id\n            _config = self._trial_to_config[trial_id]",
+      "            # Paused trial to be resumed\n            _config = self._trial_to_config[slot_in_rung.trial_id]"),
+    E("_suggest: slot id bound to a local first", _SYH,
+      "        if slot_in_rung.trial_id is not None:\n            # Paused trial to be resumed",
+      "        promoted_id = slot_in_rung.trial_id\n        if promoted_id is not None:\n            # Paused trial to be resumed"),
+]
+
+VARIANTS["C05"] += [
+    B("DEHB: promoted trial not registered as pending", DE,
+      "    ) -> TrialSuggestion:\n        # Register as pending\n        self._trial_to_pending_slot[trial_id] = ext_slot\n        # Modify entry to new milestone level",
+      "    ) -> TrialSuggestion:\n        # Modify entry to new milestone level"),
+    B("DEHB: promoted trial keeps the metric of the previous rung", DE,
+      "        trial_info.level = ext_slot.level\n        trial_info.metric_val = None\n",
+      "        trial_info.level = ext_slot.level\n"),
+    B("DEHB: slot returned with the reporting trial's metric instead of the winner's", DE,
+      "        ext_slot.metric_val = self._trial_info[winner_trial_id].metric_val",
+      "        ext_slot.metric_val = metric_val if False else self._trial_info[ext_slot.trial_id or winner_trial_id].metric_val"),
+    B("DEHB: resume whenever a trial was promoted, also without pause/resume support", DE,
+      "            if self._support_pause_resume and promoted_from_trial_id is not None:",
+      "            if promoted_from_trial_id is not None:"),
+    E("DEHB: record updated before the pending entry is written", DE,
+      "        # Register as pending\n        self._trial_to_pending_slot[trial_id] = ext_slot\n        # Modify entry to new milestone level\n        trial_info = self._trial_info.get(trial_id)",
+      "        trial_info = self._trial_info.get(trial_id)\n        self._trial_to_pending_slot[trial_id] = ext_slot"),
+]
+
+VARIANTS["C10"] += [
+    B("result events pushed only for results after the first", _SIM,
+      "            self._simulator_state.push(\n                OnTrialResultEvent(trial_id=trial_id, result=result),\n                event_time=time_result,\n            )",
+      "            if i > 0:\n                self._simulator_state.push(\n                    OnTrialResultEvent(trial_id=trial_id, result=result),\n                    event_time=time_result,\n                )"),
+    B("result event stamped without the start time of the run", _SIM,
+      "            _time_result = time_event + float(elapsed_time)\n            time_result = _time_result + self.simulator_config.delay_on_trial_result",
+      "            _time_result = time_event + float(elapsed_time)\n            time_result = float(elapsed_time) + self.simulator_config.delay_on_trial_result"),
+    B("completion event always reports 'completed'", _SIM,
+      "            CompleteEvent(trial_id=trial_id, status=status), event_time=time_complete\n        )\n        self._debug_message(\n            \"CompleteEvent\", time=time_complete, trial_id=trial_id, pushed=True\n        )\n        self._busy_trial_ids.add(trial_id)",
+      "            CompleteEvent(trial_id=trial_id, status=Status.completed), event_time=time_complete\n        )\n        self._debug_message(\n            \"CompleteEvent\", time=time_complete, trial_id=trial_id, pushed=True\n        )\n        self._busy_trial_ids.add(trial_id)"),
+    B("result not stamped with its event time", _SIM,
+      "        result[ST_TUNER_TIME] = time_event\n",
+      "        result.setdefault(ST_TUNER_TIME, time_event)\n"),
+    E("result event built first, then pushed", _SIM,
+      "            self._simulator_state.push(\n                OnTrialResultEvent(trial_id=trial_id, result=result),\n                event_time=time_result,\n            )",
+      "            ev = OnTrialResultEvent(trial_id=trial_id, result=result)\n            self._simulator_state.push(ev, event_time=time_result)"),
+    E("result time in one expression", _SIM,
+      "            _time_result = time_event + float(elapsed_time)\n            time_result = _time_result + self.simulator_config.delay_on_trial_result",
+      "            _time_result = time_event + float(elapsed_time)\n            time_result = time_event + float(elapsed_time) + self.simulator_config.delay_on_trial_result"),
+]
+
+for _p in ("C02", "C10"):
+    VARIANTS[_p] += [
+        B("resumed run: elapsed times not counted from the resume point", TAB,
+          "            for result in results:\n                result[self.elapsed_time_attr] -= elapsed_time_offset\n",
+          "            pass\n"),
+        B("resumed run: offset subtracted while it is still being searched", TAB,
+          "                if resource > resource_paused:\n                    results.append(result)\n",
+          "                if resource > resource_paused:\n                    result[self.elapsed_time_attr] -= elapsed_time_offset\n                    results.append(result)\n"),
+        E("resumed run: offset subtraction written as an assignment", TAB,
+          "                result[self.elapsed_time_attr] -= elapsed_time_offset\n",
+          "                result[self.elapsed_time_attr] = result[self.elapsed_time_attr] - elapsed_time_offset\n"),
+    ]
